@@ -160,7 +160,21 @@ func c10_7(c *core.Ctx, p *core.Prog) {
 			}
 			k, isK := core.ConstInt(cmp.Y)
 			base, sub, isLen := core.LenOf(cmp.X)
-			if !isK || k != 0 || !isLen || sub != 0 || !isFieldLoad(base, x.keysF) {
+			if !isK || k != 0 || !isLen || sub != 0 {
+				continue
+			}
+			// the keys field itself, or the local slice the constructor stores into it
+			isKeys := isFieldLoad(base, x.keysF)
+			if !isKeys {
+				for _, r := range core.Referrers(base) {
+					if s2, ok := r.(*ssa.Store); ok && s2.Val == base {
+						if f2, ok := s2.Addr.(*ssa.FieldAddr); ok && core.FieldVar(f2) == x.keysF {
+							isKeys = true
+						}
+					}
+				}
+			}
+			if !isKeys {
 				continue
 			}
 			if core.GuardedBy(iff, cmp.Op == token.EQL, st) {
